@@ -71,6 +71,9 @@ type FuncReport struct {
 }
 
 func (v *verifier) add(name string, tags []string, text string, q *smt.Query) {
+	if v.e.dry > 0 {
+		return // dry run of a loop body: nothing is proved there
+	}
 	o := v.obls[name]
 	if o == nil {
 		o = &Obligation{Name: name, Tags: tags, Text: text}
@@ -139,11 +142,16 @@ func (v *verifier) envAt(st *State, names []string, vals []Val) *spec.Env {
 	env := spec.NewEnv(v.sp, v.e.Structs)
 	env.Lists = v.e.Lists
 	if v.pkg != nil {
-		scope := v.pkg.Types.Scope()
+		scopes := []*types.Scope{v.pkg.Types.Scope()}
+		for _, imp := range v.pkg.Types.Imports() { // constants of imported packages (common.Version ...) by bare name
+			scopes = append(scopes, imp.Scope())
+		}
 		env.Lookup = func(name string) (spec.TV, bool) {
-			if c, ok := scope.Lookup(name).(*types.Const); ok {
-				if cv, ok := constVal(types.TypeAndValue{Type: c.Type(), Value: c.Val()}); ok {
-					return cv.TV, true
+			for _, scope := range scopes {
+				if c, ok := scope.Lookup(name).(*types.Const); ok && (scope == scopes[0] || c.Exported()) {
+					if cv, ok := constVal(types.TypeAndValue{Type: c.Type(), Value: c.Val()}); ok {
+						return cv.TV, true
+					}
 				}
 			}
 			return spec.TV{}, false
@@ -194,6 +202,24 @@ func (v *verifier) envForAt(fr *frame, st *State, upto token.Pos) *spec.Env {
 	return env
 }
 
+// RegisterStructs registers the struct (and list-of-struct) sorts of a package so that contracts can name them.
+func (e *Engine) RegisterStructs(pkgPath string) {
+	pp := e.Pkgs[pkgPath]
+	if pp == nil {
+		return
+	}
+	for _, n := range pp.Types.Scope().Names() {
+		if tn, ok := pp.Types.Scope().Lookup(n).(*types.TypeName); ok {
+			if _, isStruct := tn.Type().Underlying().(*types.Struct); isStruct {
+				func() {
+					defer func() { recover() }()
+					e.listOf(e.typeOf(tn.Type()))
+				}()
+			}
+		}
+	}
+}
+
 // VerifyFunc generates all obligations of one function under contract.
 func (e *Engine) VerifyFunc(pkgPath, key string, modular bool) (rep *FuncReport, err error) {
 	defer func() {
@@ -224,16 +250,7 @@ func (e *Engine) VerifyFunc(pkgPath, key string, modular bool) (rep *FuncReport,
 		if e.Specs[pp.PkgPath] == nil {
 			continue
 		}
-		for _, n := range pp.Types.Scope().Names() {
-			if tn, ok := pp.Types.Scope().Lookup(n).(*types.TypeName); ok {
-				if _, isStruct := tn.Type().Underlying().(*types.Struct); isStruct {
-					func() {
-						defer func() { recover() }()
-						e.listOf(e.typeOf(tn.Type()))
-					}()
-				}
-			}
-		}
+		e.RegisterStructs(pp.PkgPath)
 	}
 	e.consts = nil
 	e.fresh = 0
